@@ -22,7 +22,8 @@ import time
 import traceback
 
 VERIF = os.path.dirname(os.path.dirname(os.path.abspath(__file__)))
-REPO_PATHS = ["/repo/pulser-core", "/repo/pulser-simulation"]
+REPO_ROOT = os.environ.get("VERIF_REPO", "/repo")  # overridden only by tools/seed_regress.py (scratch copy)
+REPO_PATHS = [REPO_ROOT + "/pulser-core", REPO_ROOT + "/pulser-simulation"]
 for p in REPO_PATHS[::-1] + [VERIF]:
     if p not in sys.path:
         sys.path.insert(0, p)
@@ -101,7 +102,7 @@ REPLAY_TMPL = '''#!/verif/.venv/bin/python
 # Replay of a solver counterexample against the unmodified code (no shims).
 # property={prop} kernel={kernel} label={label}
 import sys
-sys.path[:0] = ["/repo/pulser-core", "/repo/pulser-simulation", "/verif"]
+sys.path[:0] = [{repo!r} + "/pulser-core", {repo!r} + "/pulser-simulation", "/verif"]
 from symx.replay import replay
 sys.exit(replay(check={check!r}, kernel={kernel!r}, shape={shape!r},
                 assignment={assignment!r}, label={label!r}))
@@ -113,7 +114,7 @@ def write_replay(prop, n, modname, kernel, shape, cex) -> str:
     os.makedirs(d, exist_ok=True)
     path = os.path.join(d, "%s_%03d.py" % (prop, n))
     with open(path, "w") as f:
-        f.write(REPLAY_TMPL.format(prop=prop, check=modname, kernel=kernel, shape=shape,
+        f.write(REPLAY_TMPL.format(repo=REPO_ROOT, prop=prop, check=modname, kernel=kernel, shape=shape,
                                    assignment=cex["assignment"], label=cex["label"]))
     return path
 
@@ -143,8 +144,8 @@ def main(argv=None) -> int:
 
     import pulser
 
-    if not pulser.__file__.startswith("/repo/"):
-        print("HARNESS-ERROR pulser imported from %s, not /repo" % pulser.__file__)
+    if not pulser.__file__.startswith(REPO_ROOT + "/"):
+        print("HARNESS-ERROR pulser imported from %s, not %s" % (pulser.__file__, REPO_ROOT))
         return 2
     modname = "checks." + prop.lower()
     mod = importlib.import_module(modname)
